@@ -12,7 +12,7 @@
 //! cfg    = [max_size]
 //! labels = [0] get | [1,c] return | [2,c] Connection::take | [3,c,k] use (0 WATCH 1 GET 2 SET 3 UNWATCH)
 //!        | [4,c,mode,v] next PING on c is answered: 0 echo, 1 bulk v, 2 simple string v, 3 integer v,
-//!                       4 nil, 5 error, 6 the server hangs up
+//!                       4 nil, 5 error, 6 the server hangs up, 7 +PONG, 8 bulk PONG
 //!        | [5,c] next UNWATCH on c is answered with an error | [6] next connect: hang up after accept
 //!        | [7,c] the server hangs up on c now
 //! obs    = [r0,r1,r2, max_size,size,available, nconns,(server_closed_i,watch_i).., ncmds,(len,conn,kind,..)..,
@@ -158,6 +158,9 @@ async fn serve(mut s: TcpStream, id: usize, sh: Sh, kill: Arc<Notify>) {
                             3 => (1, v, Some(format!(":{}\r\n", v))),
                             4 => (0, 0, Some("$-1\r\n".into())),
                             5 => (0, 0, Some("-ERR scripted failure\r\n".into())),
+                            // the argument-less answer: not the echo of the number (value -7 in the log)
+                            7 => (1, -7, Some("+PONG\r\n".into())),
+                            8 => (1, -7, Some("$4\r\nPONG\r\n".into())),
                             _ => (0, 0, None),
                         };
                         w.log.push(vec![id as i64, 2, n, has, val]);
@@ -360,6 +363,8 @@ impl Case {
 enum Profile {
     Mixed,
     Faults,
+    /// few connections reused several hundred times (counters that wrap, numbers that repeat)
+    Long,
 }
 
 fn pick<T: Copy>(rng: &mut Rng, v: &[T]) -> T {
@@ -379,7 +384,7 @@ fn gen_label(rng: &mut Rng, cs: &Case, profile: Profile) -> Vec<i64> {
     let g: u64 = if held.len() < st.max_size { 5 } else { 1 };
     let w: [u64; 8] = match profile {
         Profile::Mixed => [6 * g, 26 * h, 3 * h, 16 * u, 10 * n, 2 * n, 1, 3 * n],
-        Profile::Faults => [6 * g, 28 * h, 2 * h, 8 * u, 22 * n, 4 * n, 2, 5 * n],
+        Profile::Faults | Profile::Long => [6 * g, 28 * h, 2 * h, 8 * u, 22 * n, 4 * n, 2, 5 * n],
     };
     let k = rng.weighted(&w) as i64;
     // scripts aim at connections that will be recycled: idle ones and the ones in use
@@ -396,7 +401,7 @@ fn gen_label(rng: &mut Rng, cs: &Case, profile: Profile) -> Vec<i64> {
         3 => vec![3, pick(rng, &users), rng.weighted(&[5, 2, 2, 1]) as i64],
         4 => {
             let c = target(rng);
-            let mode = 1 + rng.weighted(&[4, 2, 2, 1, 3, 3]) as i64;
+            let mode = 1 + rng.weighted(&[4, 2, 2, 1, 3, 3, 2, 2]) as i64;
             let v = match rng.weighted(&[5, 3, 2]) {
                 0 => rng.below(last_ping.max(0) as u64 + 1) as i64, // stale: a number used before
                 1 => last_ping + 1 + rng.below(3) as i64,          // may even be the right one
@@ -421,7 +426,44 @@ fn runtime() -> tokio::runtime::Runtime {
     tokio::runtime::Builder::new_current_thread().enable_all().build().unwrap()
 }
 
+fn gen_long_trace(rng: &mut Rng) -> TraceOut {
+    let cfg = vec![1 + rng.below(2) as i64];
+    let rt = runtime();
+    let mut t = TraceOut { cfg: cfg.clone(), labels: vec![], obs: vec![], err: None };
+    rt.block_on(async {
+        let mut cs = Case::new(&cfg).await;
+        for i in 0..(270 + rng.below(40)) {
+            let mut ls: Vec<Vec<i64>> = vec![vec![0]];
+            if i % 97 == 96 {
+                // now and then a stale answer: the number of the previous round
+                let nconns = cs.sh.lock().unwrap().conns.len() as i64;
+                let last = cs.sh.lock().unwrap().last_ping;
+                if nconns > 0 {
+                    ls.insert(0, vec![4, nconns - 1, 1, last.max(0)]);
+                }
+            }
+            for l in ls {
+                let o = cs.apply(&l).await;
+                t.labels.push(l);
+                t.obs.push(o);
+            }
+            let held: Vec<i64> = cs.held.keys().map(|k| *k as i64).collect();
+            for c in held {
+                let l = vec![1, c];
+                let o = cs.apply(&l).await;
+                t.labels.push(l);
+                t.obs.push(o);
+            }
+        }
+        cs.shutdown().await;
+    });
+    t
+}
+
 fn gen_trace(rng: &mut Rng, profile: Profile, max_labels: usize) -> TraceOut {
+    if profile == Profile::Long {
+        return gen_long_trace(rng);
+    }
     let cfg = vec![1 + rng.below(4) as i64];
     let rt = runtime();
     let mut t = TraceOut { cfg: cfg.clone(), labels: vec![], obs: vec![], err: None };
@@ -520,6 +562,7 @@ fn main() {
             let n: usize = args[3].parse().unwrap();
             let profile = match args[4].as_str() {
                 "faults" => Profile::Faults,
+                "long" => Profile::Long,
                 _ => Profile::Mixed,
             };
             let max_labels: usize = args[5].parse().unwrap();
